@@ -64,7 +64,9 @@ def run_pt(ctx, case):
         else:
             arg = keep[0] if len(keep) == 1 else set(keep)
         inp = rho.reshape(dims + dims) if (j % 2 == 0) else rho
+        inp_before = inp.copy()
         out = nq.utils.partial_trace(inp, tuple(dims), arg)
+        ctx.close(inp, inp_before, 0, 'partial_trace does not modify its input')
         K = int(np.prod([dims[i] for i in keep]))
         ctx.require(out.shape == (K, K), 'partial trace shape', f'{dims} keep={keep}: {out.shape}')
         want = ref.partial_trace_fast(rho, dims, keep)
@@ -185,6 +187,7 @@ def run_abk(ctx, case):
         out = nq.dicke.partial_trace_ABk_to_AB(psi, Bij)
     want = _explicit_reduce(psi, dA, dB, k, klist)
     ctx.require(tuple(out.shape) == (dA * dB, dA * dB), 'reduced matrix shape')
+    ctx.close(np.linalg.norm(psi), 1, 1e-12, 'fast reduction does not modify the state vector')
     ctx.close(out, want, 1e-12, 'fast reduction = embed with the Dicke basis and trace k-1 copies')
     ctx.close(np.trace(np.asarray(out)), 1, 1e-12, 'unit trace')
     # tensor form
